@@ -68,19 +68,22 @@ def make(kind, prop, quick, thorough, long_every=30):
         if idx == 0:
             suite_stage(ctx, kind)
         long = ctx.tier == "thorough" and idx % long_every == 0
-        cfg = history.Cfg(rng, kind, long=long)
+        big = idx == 1 or (ctx.tier == "thorough" and idx % 400 == 7)
+        cfg = history.Cfg(rng, kind, long=long, big=big)
+        if big:
+            ctx.event("big-history")
         cfg.use_constructor = rng.random() < 0.3
         cfg.full_battery = (not long) and rng.random() < (0.05 if ctx.tier == "quick" else 0.2)  # every filter, window and width
         raw = []
         nviol = len(ctx.violations)
         try:
-            live, trace = history.run_history(ctx, rng, cfg, battery_every=1 if not long else 3, tag=tag, raw=raw)
+            live, trace = history.run_history(ctx, rng, cfg, battery_every=(40 if big else 3 if long else 1), tag=tag, raw=raw)
         except CaseAbort:
             # attach a minimised witness to the violation just recorded
             if len(ctx.violations) > nviol:
                 v = ctx.violations[-1]
                 try:
-                    small = history.minimise(cfg, raw, v["mechanism"], tag)
+                    small = history.minimise(cfg, raw, v["mechanism"], tag, budget=400 if len(raw) <= 150 else 40)
                     w = history.witness_of(cfg, small, tag) if small else None
                 except Exception as e:  # minimisation is best effort; the original witness stays
                     w = None
